@@ -2,6 +2,9 @@ package verifsim
 
 import (
 	"errors"
+
+	"github.com/dgraph-io/badger/v4"
+
 	"fmt"
 	"os"
 	"sort"
@@ -30,6 +33,68 @@ type CrashRun struct {
 	maxSnap  int
 	fp       string
 	applied  []bool
+	walEpochStart int // WAL offsets are only comparable for ops after the last clean restart
+	deletedIDs  map[uint32]bool
+	seenDsIDs   map[uint32]string // internal dataset id -> "name#incarnation"
+	incarnation map[string]int
+}
+
+// noteDatasetIDs records which internal id every live dataset has.
+func (r *CrashRun) noteDatasetIDs() {
+	for _, n := range r.H.Store.VerifDatasetNames() {
+		d := r.H.Dataset(n)
+		if d == nil {
+			continue
+		}
+		if _, ok := r.seenDsIDs[d.InternalID]; !ok {
+			r.incarnation[n]++
+			r.seenDsIDs[d.InternalID] = n + "#" + fmt.Sprint(r.incarnation[n])
+		}
+	}
+}
+
+// rawNoDatasetKeys checks that garbage collection left no key of a deleted dataset behind.
+func rawNoDatasetKeys(h *Hub, ids map[uint32]bool, prop string) *Violation {
+	var bad string
+	_ = h.Store.VerifDB().View(func(txn *badger.Txn) error {
+		it := txn.NewIterator(badger.DefaultIteratorOptions)
+		defer it.Close()
+		for it.Rewind(); it.Valid(); it.Next() {
+			k := it.Item().Key()
+			if len(k) < 2 {
+				continue
+			}
+			var ds uint32
+			switch be16(k) {
+			case server.EntityIDToJSONIndexID:
+				if len(k) != 24 {
+					continue
+				}
+				ds = be32(k[10:])
+			case server.DatasetEntityChangeLog, server.DatasetLatestEntities:
+				if len(k) < 6 {
+					continue
+				}
+				ds = be32(k[2:])
+			case server.OutgoingRefIndex, server.IncomingRefIndex:
+				if len(k) != 40 {
+					continue
+				}
+				ds = be32(k[36:])
+			default:
+				continue
+			}
+			if ids[ds] {
+				bad = fmt.Sprintf("index family %d still holds a key of deleted dataset id %d", be16(k), ds)
+				return nil
+			}
+		}
+		return nil
+	})
+	if bad != "" {
+		return viol(prop, "gc", "deleted-dataset-keys-remain", "after garbage collection %s", bad)
+	}
+	return nil
 }
 
 var errInjected = errors.New("injected fault")
@@ -39,6 +104,12 @@ var crashablePoints = []string{
 	"StoreEntities.beforeIDCommit", "StoreEntities.afterIDCommit", "StoreEntities.afterDataCommit", "StoreEntities.afterUpdateDataset",
 	"ExecuteTransaction.beforeIDCommit", "ExecuteTransaction.afterIDCommit", "ExecuteTransaction.afterDataCommit", "ExecuteTransaction.afterUpdateDataset",
 	"updateDataset.beforeStore", "StoreEntitiesWithTransaction.entity",
+}
+
+// dsmPoints are the additional crash points of the dataset-management and GC paths (C07).
+var dsmPoints = []string{
+	"CreateDataset.afterNextID", "CreateDataset.afterRecord", "UpdateDataset.afterMove", "UpdateDataset.afterTombstone",
+	"DeleteDataset.afterRecordDelete", "DeleteDataset.afterDeletedSet", "gc.beforeDeleteBatch",
 }
 
 func pointClass(name string) string { return name }
@@ -73,7 +144,8 @@ func (r *CrashRun) verifyState(cs *crashState) *Violation {
 	if cs.inflight >= 0 && cs.inflight+1 < len(r.models) && r.applied[cs.inflight] {
 		cands = append(cands, r.models[cs.inflight+1])
 	}
-	var first *Violation
+	var last *Violation
+	var msgs []string
 	matched := -1
 	for ci, m := range cands {
 		v := r.checkAgainst(h, m)
@@ -81,13 +153,12 @@ func (r *CrashRun) verifyState(cs *crashState) *Violation {
 			matched = ci
 			break
 		}
-		if first == nil {
-			first = v
-		}
+		last = v
+		msgs = append(msgs, v.Message)
 	}
 	if matched < 0 {
-		return viol(prop, "crash-atomicity", "neither-before-nor-after@"+cs.class+":"+first.Signature,
-			"after crash at %s the state equals neither the acknowledged history (%d ops) nor that plus the operation in flight: %s", cs.desc, cs.acked, first.Message)
+		return viol(prop, "crash-atomicity", "neither-before-nor-after@"+cs.class+":"+last.Signature,
+			"after crash at %s the state equals neither the acknowledged history (%d ops) nor that plus the operation in flight (%s): vs acknowledged: %s", cs.desc, cs.acked, opDesc(r.Sc, cs.inflight), strings.Join(msgs, " || vs acknowledged+in-flight: "))
 	}
 	if matched == 1 {
 		r.Stats["inflight_survived"]++
@@ -154,6 +225,25 @@ func tail(l []uint64, n int) []uint64 {
 
 // checkAgainst compares every read API with model m.
 func (r *CrashRun) checkAgainst(h *Hub, m *Model) *Violation {
+	var have []string
+	for _, n := range h.Store.VerifDatasetNames() {
+		if n != "core.Dataset" {
+			have = append(have, n)
+		}
+	}
+	sort.Strings(have)
+	if strings.Join(have, ",") != strings.Join(m.Names(), ",") {
+		return viol(r.Sc.Property, "state", "dataset-list", "datasets are %v, expected %v", have, m.Names())
+	}
+	if r.Sc.Property == "C07" {
+		// nothing of a deleted dataset may show up in merged lookups either
+		for _, id := range r.Pool {
+			if v := CheckMergedLookup(h, m, id, nil); v != nil {
+				v.Property = "C07"
+				return v
+			}
+		}
+	}
 	for _, n := range m.Names() {
 		if h.Dataset(n) == nil {
 			return viol(r.Sc.Property, "state", "dataset-missing", "dataset %s missing", n)
@@ -182,7 +272,8 @@ func RunCrashScenario(sc *Scenario) (vd *Verdict) {
 		vd.Verdict, vd.Message = "error", err.Error()
 		return
 	}
-	r := &CrashRun{SeqRun: sr, maxSnap: int(sc.Knob("maxStates", 24))}
+	r := &CrashRun{SeqRun: sr, maxSnap: int(sc.Knob("maxStates", 24)), deletedIDs: map[uint32]bool{}, seenDsIDs: map[uint32]string{}, incarnation: map[string]int{}}
+	r.noteDatasetIDs()
 	defer func() {
 		for _, cs := range r.states {
 			os.RemoveAll(cs.dir)
@@ -207,6 +298,9 @@ func RunCrashScenario(sc *Scenario) (vd *Verdict) {
 		vd.TraceHash = r.TraceHash()
 		vd.SimNS = int64(time.Since(r.Start))
 		vd.Nontrivial = r.Stats["crash_states_verified"] >= 1 && r.Stats["commits"] >= 1
+		if sc.Property == "C07" {
+			vd.Nontrivial = r.Stats["mgmt_ops"] >= 1 && r.Stats["commits"] >= 1
+		}
 	}()
 	armed := map[string]string{} // "point#hit" -> kind
 	for _, f := range sc.Faults {
@@ -241,10 +335,15 @@ func RunCrashScenario(sc *Scenario) (vd *Verdict) {
 		}
 		time.Sleep(d)
 		var werr error
+		mgmt := false
 		touched := []string{}
 		switch op.K {
 		case "batch":
 			ds := r.H.Dataset(op.DS)
+			if ds == nil {
+				fail(viol(sc.Property, "harness", "invalid", "dataset %s does not exist", op.DS), i)
+				return
+			}
 			r.noteWrites(op.DS, op.Ents)
 			werr = ds.StoreEntities(r.H.Entities(op.Ents))
 			touched = append(touched, op.DS)
@@ -261,6 +360,30 @@ func RunCrashScenario(sc *Scenario) (vd *Verdict) {
 				r.Stats["ctx_txns"]++
 			}
 			werr = st.ExecuteTransaction(t)
+		case "deleteDataset":
+			if d := r.H.Dataset(op.DS); d != nil {
+				r.deletedIDs[d.InternalID] = true
+			}
+			werr = r.H.Dsm.DeleteDataset(op.DS)
+			mgmt = true
+		case "createDataset":
+			_, werr = r.H.Dsm.CreateDataset(op.DS, nil)
+			mgmt = true
+		case "renameDataset":
+			_, werr = r.H.Dsm.UpdateDataset(op.DS, &server.UpdateDatasetConfig{ID: op.DS2})
+			mgmt = true
+		case "gc":
+			werr = server.NewGarbageCollector(r.H.Store, r.H.Env).Cleandeleted()
+			mgmt = true
+			r.Stats["gc_runs"]++
+		case "restart":
+			if v := r.restart(); v != nil {
+				fail(v, i)
+				return
+			}
+			mgmt = true
+			r.fp = FilesFingerprint(r.H.Dir)
+			r.walEpochStart = i + 1
 		default:
 			fail(viol(sc.Property, "harness", "invalid", "unknown op kind %q", op.K), i)
 			return
@@ -269,7 +392,37 @@ func RunCrashScenario(sc *Scenario) (vd *Verdict) {
 			fail(viol(sc.Property, "write", "write-rejected", "op %d (%s) failed: %v", i, op.K, werr), i)
 			return
 		}
-		if werr == nil {
+		if werr == nil && mgmt {
+			r.applied[i] = true
+			switch op.K {
+			case "deleteDataset":
+				r.M.Drop(op.DS)
+			case "createDataset":
+				r.M.Create(op.DS)
+				if d := r.H.Dataset(op.DS); d != nil {
+					if r.seenDsIDs[d.InternalID] != "" && r.seenDsIDs[d.InternalID] != op.DS+"#"+fmt.Sprint(r.incarnation[op.DS]) {
+						fail(viol(sc.Property, "dataset-id", "internal-dataset-id-reused", "dataset %s got internal id %d which belonged to %s", op.DS, d.InternalID, r.seenDsIDs[d.InternalID]), i)
+						return
+					}
+				}
+			case "renameDataset":
+				r.M.Rename(op.DS, op.DS2)
+			}
+			r.noteDatasetIDs()
+			r.Stats["mgmt_ops"]++
+			r.ev("%s ok", op.K)
+			if v := r.checkAgainst(r.H, r.M); v != nil {
+				v.Signature = "after-" + op.K + ":" + v.Signature
+				fail(v, i)
+				return
+			}
+			if op.K == "gc" {
+				if v := rawNoDatasetKeys(r.H, r.deletedIDs, sc.Property); v != nil {
+					fail(v, i)
+					return
+				}
+			}
+		} else if werr == nil {
 			r.applied[i] = true
 			switch op.K {
 			case "batch":
@@ -281,6 +434,9 @@ func RunCrashScenario(sc *Scenario) (vd *Verdict) {
 			}
 			r.Stats["commits"]++
 			r.ev("%s ok", op.K)
+		} else if mgmt {
+			fail(viol(sc.Property, "write", "mgmt-op-rejected", "op %d (%s %s) failed: %v", i, op.K, op.DS, werr), i)
+			return
 		} else {
 			r.ev("%s failed(injected)", op.K)
 			// a rejected write must be entirely absent
@@ -330,7 +486,7 @@ func RunCrashScenario(sc *Scenario) (vd *Verdict) {
 				return cuts[i].frac < cuts[j].frac
 			})
 			for _, c := range cuts {
-				if c.op < 0 || c.op >= len(sc.Ops) || len(r.states) >= r.maxSnap+12 {
+				if c.op < r.walEpochStart || c.op >= len(sc.Ops) || len(r.states) >= r.maxSnap+12 {
 					continue
 				}
 				a, b := r.walEnds[c.op], r.walEnds[c.op+1]
@@ -376,10 +532,23 @@ func RunCrashScenario(sc *Scenario) (vd *Verdict) {
 }
 
 func isCrashable(name string) bool {
+	for _, p := range dsmPoints {
+		if p == name {
+			return true
+		}
+	}
 	for _, p := range crashablePoints {
 		if p == name {
 			return true
 		}
 	}
 	return false
+}
+
+func opDesc(sc *Scenario, i int) string {
+	if i < 0 || i >= len(sc.Ops) {
+		return "none"
+	}
+	op := sc.Ops[i]
+	return fmt.Sprintf("op %d %s %s%s", i, op.K, op.DS, op.DS2)
 }
